@@ -14,15 +14,17 @@ From PV Require Import Queue.Model Queue.Spec.
 Example c02_hyps_ex :
   let es := [mk_entry 2 3 KArray [1] true; mk_entry 1 0 KGen [2] true] in
   wf_queue (PGrouped 2) es = true /\ forallb progress_entry es = true /\
-  (exists q out ev, pops all_rep (qinit (PGrouped 2) es [] []) [2; 0; 5] = Some (q, out, ev)
-                    /\ added_of ev <> []) /\
-  (exists q o e r, pops all_rep (qinit PFifo es [] []) [4] = Some (q, o, e) /\
-                   pop_buffer all_rep q (3 + 4) = Some r).
-Proof.
-  vm_compute. repeat split; try reflexivity.
-  - do 3 eexists. split; [reflexivity|discriminate].
-  - do 4 eexists. split; reflexivity.
-Qed.
+  (* a run succeeds and notifies trials *)
+  match pops all_rep (qinit (PGrouped 2) es [] []) [2; 0; 5] with
+  | Some (_, _, ev) => negb (eqb_list eqb_pairZ (added_of ev) [])
+  | None => false
+  end = true /\
+  (* a reachable state from which the single request of chunk_invariant succeeds *)
+  match pops all_rep (qinit PFifo es [] []) [4] with
+  | Some (q, _, _) => match pop_buffer all_rep q (3 + 4) with Some _ => true | None => false end
+  | None => false
+  end = true.
+Proof. vm_compute. repeat split; reflexivity. Qed.
 
 Print Assumptions timeline.
 Print Assumptions chunk_invariant.
